@@ -8,7 +8,7 @@
 void suite_wire(int), suite_hdr(int), suite_cksum(int), suite_endian(int), suite_valid(int);
 void suite_force(int), suite_args(int), suite_hist(int);
 void suite_ledger(int), suite_fault(int), suite_pure(int), suite_isal(int), suite_conc(int);
-void suite_mt(int), suite_cat(int);
+void suite_mt(int), suite_cat(int), suite_grid(int);
 void suite_rt(int), suite_nsc(int), suite_recon(int), suite_rsmat(int), suite_xor(int), suite_need(int);
 
 /* instance churn on its own (plain build: glibc hands freed blocks out again at once, which the
@@ -24,7 +24,7 @@ static struct { const char *name; void (*fn)(int); } SUITES[] = {
     { "rt", suite_rt }, { "nsc", suite_nsc }, { "recon", suite_recon }, { "rsmat", suite_rsmat },
     { "xor", suite_xor }, { "need", suite_need },
     { "force", suite_force }, { "args", suite_args }, { "hist", suite_hist },
-    { "ledger", suite_ledger }, { "fault", suite_fault }, { "pure", suite_pure }, { "isal", suite_isal }, { "conc", suite_conc }, { "mt", suite_mt }, { "cat", suite_cat },
+    { "ledger", suite_ledger }, { "fault", suite_fault }, { "pure", suite_pure }, { "isal", suite_isal }, { "conc", suite_conc }, { "mt", suite_mt }, { "cat", suite_cat }, { "grid", suite_grid },
 };
 
 int main(int argc, char **argv) {
